@@ -11,7 +11,9 @@
    `given` holds the streams the model does not choose: what the source plugins yield and what the loaders of
    the stored data types yield; they are arbitrary chunkings.  Everything else is computed. *)
 From SV Require Import Model.Rows Model.SplitArray Model.Chunk Model.Rechunker Model.Network
-     Proof.RechunkerProof Proof.NetworkProof Proof.NetworkGraphProof Proof.NetworkLoopProof Proof.NetworkDownProof.
+     Model.Mailbox Proof.MailboxInOrder Model.PluginIter Model.NetworkIter Proof.PluginIterStair
+     Proof.RechunkerProof Proof.NetworkProof Proof.NetworkGraphProof Proof.NetworkLoopProof Proof.NetworkDownProof
+     Proof.NetworkIterProof Proof.NetworkChannelProof.
 
 (* Plugin.iter with one dependency hands do_compute exactly the dependency's chunks one by one *)
 Theorem C01_single_dependency_iter_is_identity : forall dt run cs s e,
@@ -74,13 +76,13 @@ Print Assumptions C01_kind_loop_is_callwise.
    with any chunking (both through `given`), evaluation succeeds and the stream of EVERY data type carries exactly
    the rows of the whole-run evaluation and tiles the run *)
 Theorem C01_results_chunking_independent_partial :
-  forall (align : list Z -> stream -> stream -> res calls2) (align_pre : list row -> list row -> Prop),
-  (forall bs dt1 run1 dt2 run2 R1 R2 T s1 s2,
-     chunking_of dt1 run1 R1 0 T s1 -> chunking_of dt2 run2 R2 0 T s2 -> align_pre R1 R2 ->
+  forall (align : list Z -> stream -> stream -> res calls2) (align_pre : list row -> list row -> Prop) (rn : option Z),
+  (forall bs dt1 dt2 R1 R2 T s1 s2,
+     chunking_of dt1 rn R1 0 T s1 -> chunking_of dt2 rn R2 0 T s2 -> align_pre R1 R2 ->
      exists calls, align bs s1 s2 = Ok calls /\ aligned R1 R2 0 T calls /\
-                   (map rt R1 = map rt R2 -> map re R1 = map re R2 -> equal_len calls)) ->
+                   ends_nt T (map (fun p => cend (fst p)) calls)) ->
   forall T src given g target,
-  graph_ok align_pre T src given [] g ->
+  graph_ok align_pre rn T src given [] g ->
   exists env, eval_graph align given [] g = Ok env /\
     match lookup target env with
     | Some cs => exists R, lookup target (eval_whole src [] g) = Some R /\ tiles R 0 T cs
@@ -88,6 +90,41 @@ Theorem C01_results_chunking_independent_partial :
     end.
 Proof. exact results_chunking_independent. Qed.
 Print Assumptions C01_results_chunking_independent_partial.
+
+(* aligned tight calls hold equally many rows of two inputs with the same row starts: the equal-length check of
+   Chunk.merge for same-kind inputs can never fire on them *)
+Theorem C01_aligned_calls_equal_len : forall R1 R2 a b calls,
+  aligned R1 R2 a b calls -> map rt R1 = map rt R2 -> equal_len calls.
+Proof. exact aligned_equal_len. Qed.
+Print Assumptions C01_aligned_calls_equal_len.
+
+(* the alignment hypothesis DISCHARGED for Plugin.iter itself (align_iter = C08's plugin_iter on the two inputs),
+   from C08_iter_total_below_pass_limit, C08_iter_calls_aligned and the loop invariants of C08
+   (Proof/NetworkIterCalls.v), under iter_pre R1 R2 :=
+     no zero-length row in R1, none in R2, and at every time y the staircase of mutually straddling rows of
+     (R1, R2) settles within the pass limit ITER_MAX_PASSES (stair_ok, C08) *)
+Theorem C01_iter_alignment_from_C08 : forall rn bs dt1 dt2 R1 R2 T s1 s2,
+  chunking_of dt1 rn R1 0 T s1 -> chunking_of dt2 rn R2 0 T s2 -> iter_pre R1 R2 ->
+  exists calls, align_iter bs s1 s2 = Ok calls /\ aligned R1 R2 0 T calls /\
+                ends_nt T (map (fun p => cend (fst p)) calls).
+Proof. exact align_iter_ok. Qed.
+Print Assumptions C01_iter_alignment_from_C08.
+
+(* results_chunking_independent, closed: Plugin.iter itself aligns the two-dependency nodes; no alignment
+   hypothesis is left.  For every topologically ordered graph of local (row-wise, filter, cut, each output of a
+   multi-output plugin), exhaust, down-chunking, same-kind-merge and loop nodes whose two-dependency nodes satisfy
+   iter_pre on their whole-run inputs (graph_ok), every tight chunking without a zero-duration chunk kept back at
+   the end of every source and of every stored data type (`given`): evaluation succeeds and the stream of every
+   data type has exactly the rows of the whole-run evaluation and tiles the run. *)
+Theorem C01_results_chunking_independent : forall rn T src given g target,
+  graph_ok iter_pre rn T src given [] g ->
+  exists env, eval_graph align_iter given [] g = Ok env /\
+    match lookup target env with
+    | Some cs => exists R, lookup target (eval_whole src [] g) = Some R /\ tiles R 0 T cs
+    | None => lookup target (eval_whole src [] g) = None
+    end.
+Proof. exact results_chunking_independent_iter. Qed.
+Print Assumptions C01_results_chunking_independent.
 
 (* target_stream_tiles_run: what `tiles` gives for the chunks get_iter yields: continuity_check passes, the
    stream spans the run, every row lies wholly inside the chunk that carries it, no boundary cuts a row *)
@@ -109,39 +146,55 @@ Print Assumptions C01_saved_stream_chunking.
 
 (* the alignment hypothesis is satisfiable (the coarsest legal alignment: one call over the whole run), so the
    partial theorem is not vacuous; the Example ex_graph_ok / ex_eval in Proof/NetworkGraphProof.v instantiate it *)
-Theorem C01_alignment_hypothesis_satisfiable : forall bs dt1 run1 dt2 run2 R1 R2 T s1 s2,
-  chunking_of dt1 run1 R1 0 T s1 -> chunking_of dt2 run2 R2 0 T s2 -> True ->
+Theorem C01_alignment_hypothesis_satisfiable : forall rn bs dt1 dt2 R1 R2 T s1 s2,
+  chunking_of dt1 rn R1 0 T s1 -> chunking_of dt2 rn R2 0 T s2 -> True ->
   exists calls, align_one bs s1 s2 = Ok calls /\ aligned R1 R2 0 T calls /\
-                (map rt R1 = map rt R2 -> map re R1 = map re R2 -> equal_len calls).
+                ends_nt T (map (fun p => cend (fst p)) calls).
 Proof. exact align_one_ok. Qed.
 Print Assumptions C01_alignment_hypothesis_satisfiable.
+
+(* stage_determinism, channel level, from C05 (C05_mailbox_delivery_safe, C05_mailbox_complete): a producer sends the
+   chunks of a stream cs through a strax Mailbox; for EVERY schedule, any number of subscribers, any capacity, lazy
+   or eager, any driver mask, with or without a kill: every subscriber has at every moment received a prefix of
+   cs in order, and exactly cs once its iteration has ended; without a kill, when all threads have finished,
+   every subscriber has received exactly cs -- also when the chunks are futures computed by a worker pool *)
+Theorem C01_stage_determinism_channel : forall cfg cs nfut drives killer sched st,
+  run cfg (init cfg drives (source_of (encode cs)) killer nfut) sched = Some st ->
+  forall i r, nth_error (rds st) i = Some r ->
+    (exists rest, decode cs (r_log r) ++ rest = cs) /\ (r_pc r = RDone -> decode cs (r_log r) = cs).
+Proof. exact channel_delivery. Qed.
+Print Assumptions C01_stage_determinism_channel.
+
+Theorem C01_stage_determinism_channel_complete : forall cfg cs nfut drives sched st,
+  drives <> [] -> run cfg (init cfg drives (source_of (encode cs)) None nfut) sched = Some st ->
+  all_terminal st = true -> forall i r, nth_error (rds st) i = Some r -> decode cs (r_log r) = cs.
+Proof. exact channel_complete. Qed.
+Print Assumptions C01_stage_determinism_channel_complete.
+
+Theorem C01_stage_determinism_channel_futures : forall cfg cs nfut drives sched st,
+  drives <> [] -> run cfg (init cfg drives (source_of (encode_fut cs)) None nfut) sched = Some st ->
+  all_terminal st = true -> forall i r, nth_error (rds st) i = Some r -> decode cs (r_log r) = cs.
+Proof. exact channel_complete_futures. Qed.
+Print Assumptions C01_stage_determinism_channel_futures.
 
 (* ---------------------------------------------------------------------------------------------------------- *)
 (* full statements that are not proved here                                                                     *)
 (* ---------------------------------------------------------------------------------------------------------- *)
 
-(* the full results_chunking_independent: the conclusion of the partial theorem for the real alignment of
-   Plugin.iter (iter2 = the C08 model of Plugin.iter for two dependencies, staircase_ok = the class of inputs on
-   which it promises success, DESIGN section 7 T4) WITHOUT the alignment hypothesis.  It follows from the partial
-   theorem and C08's iter_calls_aligned / iter_rows_exactly_once once those are merged. *)
-Definition C01_full_results_chunking_independent
-           (iter2 : list Z -> stream -> stream -> res calls2) (staircase_ok : list row -> list row -> Prop) : Prop :=
-  forall T src given g target,
-  graph_ok staircase_ok T src given [] g ->
-  exists env, eval_graph iter2 given [] g = Ok env /\
-    match lookup target env with
-    | Some cs => exists R, lookup target (eval_whole src [] g) = Some R /\ tiles R 0 T cs
-    | None => lookup target (eval_whole src [] g) = None
-    end.
-
 (* the overlap-window kind is property C09's model (overlap_equals_whole_run, overlap_output_contiguous); in C01 it
-   is covered by the correspondence (oracles i, ii, iv) *)
+   is covered by the correspondence (oracles i, ii, iv); nodes with three or more dependencies likewise *)
 
-(* stage_determinism (schedule independence): refers to the mailbox property C05.  For every terminating
-   schedule of the threaded processor (any max_workers, lazy or eager, any capacity above the chunk lag) and for
-   the single-thread processor, each subscriber of a data type reads exactly the sequence its producer sent;
-   by induction over the topological order the stream at every node is the one eval_graph computes.
-   `delivered sched d reader` stands for the sequence C05's transition system delivers. *)
+(* stage_determinism at the level of the whole network.  What is proved above is the channel: every subscriber of ONE
+   mailbox reads exactly what its producer sent, for every schedule.  Missing for the network statement below:
+   (1) a transition system that composes the mailbox LTS of C05 into a network whose stage threads read from
+       upstream mailboxes and send what Plugin.iter / do_compute make of it (DESIGN's Model/MailboxNet.v of C13 is
+       not on main), so that "a stage is a deterministic function of the sequences it reads" can be composed with
+       the channel theorem along the topological order;
+   (2) for the single-thread processor, C06's PostOffice model (C06_single_thread_no_failure_complete: the caller
+       receives exactly the whole-run message sequence, for arbitrary DAGs) has 1:1 stages only (one message from
+       each dependency, one out), not stages that consume several chunks per call (Plugin.iter over unaligned
+       inputs, exhaust) or emit several (down-chunking).
+   `delivered sched d reader` stands for the sequence the network delivers. *)
 Definition C01_full_stage_determinism : Prop :=
   forall (schedule : Type) (terminating : schedule -> Prop)
          (delivered : schedule -> Z -> Z -> stream)      (* schedule -> data type -> reader -> what it read *)
